@@ -446,7 +446,7 @@ def _independent_reads(db, rep):
         r8.ok('writers', '%d to_json writers: no JSON array is filled from a hash container' % n_w)
     # ---------------------------------------------------------------- r12
     r12 = rep.rule('r12', 'LOAD-STORES: the loaders of model values (rsValuesFacet::LoadData) hand what the document holds to the internal setter on every path: whether a stored value is kept never depends on what else has been loaded so far '
-                          '(values are loaded in uid order, base-set interpretations among them)', 3)
+                          '(values are loaded in uid order, base-set interpretations among them), and loading one value never invalidates another', 6)
     from engine.cfgq import success_exits as _sx
     VF = 'ccl::semantic::rsValuesFacet'
     loaders = [f for f in db.functions if f.name == VF + '::LoadData' and f.has_cfg()]
@@ -462,6 +462,15 @@ def _independent_reads(db, rep):
                           '(a structure whose uid is smaller than that of its base set is checked against an interpretation that is still empty), so the loaded model and the document written from it differ')
         else:
             r12.ok('LoadData(%s)' % ptype, 'stores on every path', '%s:%d' % (f.file, f.line))
+        # ... and stores only: values arrive in uid order, so an invalidation of dependants issued while loading erases what was loaded before it
+        from engine.cfgq import transitive_calls
+        INVALIDATE = ('ccl::semantic::RSModel::ResetDependants', VF + '::ResetFor', VF + '::PruneStructure', VF + '::ResetAll', VF + '::ResetAllExceptCore', 'ccl::semantic::rsCalculationFacet::ResetFor')
+        w = transitive_calls(db, f, lambda n: (n.get('cs') or '') in INVALIDATE, depth=4, restrict=lambda t: t.name.startswith('ccl::semantic::rs') or t.name.startswith('ccl::semantic::RSModel'))
+        if w is not None:
+            r12.violation('LoadData(%s):stores-only' % ptype, w[-1][0].loc(w[-1][1]), 'loading one value reaches `%s` (through %s): the values of its dependants that were loaded earlier (smaller uid) are erased or pruned against interpretations that are not loaded yet, so the loaded model differs from the saved one' % (
+                w[-1][1].get('cs'), ' -> '.join(x[0].name.split('::')[-1] for x in w)))
+        else:
+            r12.ok('LoadData(%s):stores-only' % ptype, 'no invalidation of other values is reachable from the loader', '%s:%d' % (f.file, f.line))
     # ---------------------------------------------------------------- r11
     r11 = rep.rule('r11', 'RESOLUTION-IDEMPOTENT (hosted here, a clause of C17 too): loading re-resolves every term (Thesaurus::UpdateState, OnTermChange interpreted); doing it again changes no resolved text, '
                           'also when term references form a loop - otherwise every load / save cycle writes a different document', 2)
